@@ -10,10 +10,11 @@ from props._cfg_common import TRUSTED, ASSUMPTIONS, TECHNIQUE
 
 PROP = "C20"
 LEVEL = "other"
-THEOREMS = {"Properties.C20": ["C20_symbol_text_roundtrip", "C20_box_certificate", "C20_text_constants_from_source", "C20_grammar_text_roundtrip", "C20_box_code_path",
-                                "C20_split_unique", "C20_pda_label_roundtrip", "C20_fst_label_roundtrip", "C20_label_separators_from_source",
+THEOREMS = {"Properties.C20": ["C20_symbol_text_roundtrip", "C20_box_certificate", "C20_grammar_text_roundtrip", "C20_box_code_path",
+                                "C20_split_unique", "C20_pda_label_roundtrip", "C20_fst_label_roundtrip", 
                                 "C20_join_split", "C20_read_pda_label_sound", "C20_read_fst_label_sound",
-                                "C20_pda_label_roundtrip_fields", "C20_fst_label_roundtrip_fields"]}
+                                "C20_pda_label_roundtrip_fields", "C20_fst_label_roundtrip_fields"],
+            "Properties.C20Tie": ["C20_text_constants_from_source", "C20_label_separators_from_source"]}
 LEVEL_TEXT = ("Partial + correspondence: the VAR:/TER: marker logic of to_text/from_text is modelled at token level and its round trip is proved for every "
               "symbol that is not an epsilon spelling; the edge labels of the PDA / FST networkx export are modelled at character level (assembly with the separators "
               "regenerated from the source, str.split with exact-two-parts unpacking) and proved to be read back whenever each separator occurs at exactly one position "
